@@ -729,6 +729,26 @@ def decide(prop, tier, seed, cfg, scratch, index, spec_dir, contracts_dir, evide
                     es = [e for e in verdicts[u['uid']]['errors'] if e['kind'] == 'failed']
                     if es and all(is_proof_step(scratch, u, e) for e in es) and not verdicts[u['uid']].get('kani_counterexample'):
                         soft.append(u)
+                # before giving up: the function of such a unit also stands under the contract for the other properties it is
+                # tagged with; a concrete input on which it deviates from the spec, found by THEIR directed searches, refutes
+                # the unit's spec-equality clause just as well (e.g. Poly1305::finalize: constructed edge accumulators live in
+                # the C01/C04/C07/C08 searches, the stream properties cannot construct them)
+                borrowed = None
+                if soft:
+                    others = []
+                    for u in soft:
+                        for q in u['props']:
+                            if q != prop and q not in others and q in ('C01', 'C02', 'C03', 'C04', 'C05', 'C06', 'C07', 'C08', 'C09', 'C10', 'C12', 'C13'):
+                                others.append(q)
+                    for q in others[:6]:
+                        w2 = run_witness(q, tier, seed, new_fail)
+                        if w2 and w2.get('status') == 'found':
+                            borrowed = dict(w2, borrowed_from_property=q,
+                                            note='found by the directed search of %s, which shares the unit whose proof failed' % q)
+                            break
+                if borrowed:
+                    witness = borrowed
+                    soft = []
                 for u in soft:
                     failed.remove(u)
                     undecided.append(u)
